@@ -59,10 +59,15 @@ impl MqttStatusReporter {
             "Reconnecting in {} seconds",
             connect_retry_secs.as_secs()
         );
-        self.metrics
+        // Only a connection that was established can be lost: a failed
+        // attempt to re-connect during an outage is not another loss.
+        if self
+            .metrics
             .connection_established_state
-            .store(false, SeqCst);
-        self.metrics.connection_lost_count.fetch_add(1, SeqCst);
+            .swap(false, SeqCst)
+        {
+            self.metrics.connection_lost_count.fetch_add(1, SeqCst);
+        }
     }
 
     pub fn publishing<T: Display, C: Display>(&self, topic: T, content: C) {
